@@ -24,7 +24,7 @@ func each(params map[string]int, names ...string) []hrun {
 var checks = map[string]*propCheck{}
 
 func init() {
-	c14 := []string{"vhC14NewID", "vhC14NewType", "vhC14MustID", "vhC14MustType", "vhC14UnmarshalText", "vhC14UnmarshalJSON", "vhC14Scan", "vhC14Upgrade", "vhC14MessageUnmarshal", "vhC14MessageUnmarshalTpl"}
+	c14 := []string{"vhC14NewID", "vhC14NewType", "vhC14MustID", "vhC14MustType", "vhC14UnmarshalText", "vhC14UnmarshalJSON", "vhC14Scan", "vhC14Upgrade", "vhC14MessageUnmarshal", "vhC14MessageUnmarshalTpl", "vhC14MessageUnmarshalLines"}
 	checks["C14"] = &propCheck{
 		ID:       "C14",
 		Quick:    each(P("N", 4), c14...),
@@ -50,7 +50,9 @@ func init() {
 		return r
 	}
 	checks["C08"] = &propCheck{
-		ID: "C08", Quick: finite([]int{2, 3}, 1), Thorough: append(finite([]int{4}, 1), append(finite([]int{3}, 2), hrun{Harness: "vhC08Put", Params: P("CAP", 6, "AUTO", 1, "TOPICS", 1, "FIRSTS", 12)}, hrun{Harness: "vhC08Put", Params: P("CAP", 6, "AUTO", 0, "TOPICS", 1)})...),
+		ID: "C08", Quick: append(finite([]int{2, 3}, 1),
+			// two topics per event and per subscription: the intersection must not depend on positions
+			hrun{Harness: "vhC08Replay", Params: P("CAP", 2, "AUTO", 0, "TOPICS", 2), Covers: []string{"C08/Replay/something-replayed"}}), Thorough: append(finite([]int{4}, 1), append(finite([]int{3}, 2), hrun{Harness: "vhC08Put", Params: P("CAP", 6, "AUTO", 1, "TOPICS", 1, "FIRSTS", 12)}, hrun{Harness: "vhC08Put", Params: P("CAP", 6, "AUTO", 0, "TOPICS", 1)})...),
 		Labels: []string{"C08/"},
 		Bounds: map[string]string{
 			"quick":    "capacity N in {2,3}; pre-state: every (count, head) shape of the ring, manual IDs = pairwise distinct symbolic strings <= 2 bytes / automatic IDs first+k with first in {0,7,9,98}; one topic per entry and 1 topic per subscription (symbolic bytes); one Put (ID set/unset, 0-2 topics) or one Replay (ID unset / any string <= 2 bytes / the k-th buffered ID; symbolic failing Send index; Flush failing or not). By induction over the representation invariant: Put/Replay histories of any length for these capacities.",
@@ -85,7 +87,11 @@ func init() {
 		Quick: append(append(each(P("CAP", 3, "AUTO", 0, "TOPICS", 1), "vhC08Put"), append(each(P("AUTO", 0, "SIZES", 3, "TOPICS", 1), "vhC09GC", "vhC09Put"), each(P("CAP", 2, "AUTO", 1, "TOPICS", 1), "vhC08Put")...)...),
 			// a Replay to a failing client first: it must leave nothing behind that keeps evicted/collected messages alive
 			hrun{Harness: "vhC08Put", Params: P("CAP", 3, "AUTO", 1, "TOPICS", 1, "PREREPLAY", 1, "FIRSTS", 3)},
-			hrun{Harness: "vhC09GC", Params: P("AUTO", 0, "SIZES", 2, "TOPICS", 1, "PREREPLAY", 1, "MAXCOUNT", 2)}),
+			hrun{Harness: "vhC09GC", Params: P("AUTO", 0, "SIZES", 2, "TOPICS", 1, "PREREPLAY", 1, "MAXCOUNT", 2)},
+			// ... and a Replay at the current clock value, when a prefix may already have expired
+			hrun{Harness: "vhC09GC", Params: P("AUTO", 0, "SIZES", 2, "TOPICS", 1, "PREREPLAY", 2, "MAXCOUNT", 2)},
+			// through the public constructor, capacities 2..17 (also beyond any internal initial size): N+3 Puts
+			hrun{Harness: "vhC18FiniteHistory", Covers: []string{"C18/FiniteHistory/ran"}}),
 		Thorough: append(append(each(P("CAP", 5, "AUTO", 0, "TOPICS", 1), "vhC08Put"), append(each(P("AUTO", 0, "SIZES", 4, "TOPICS", 1), "vhC09GC", "vhC09Put"), each(P("AUTO", 1, "SIZES", 4, "TOPICS", 1), "vhC09GC", "vhC09Put")...)...),
 			hrun{Harness: "vhC09GC", Params: P("AUTO", 0, "SIZES", 2, "TOPICS", 1, "PREREPLAY", 1)},
 			hrun{Harness: "vhC09Put", Params: P("AUTO", 1, "SIZES", 2, "TOPICS", 1, "PREREPLAY", 1)}),
@@ -104,7 +110,7 @@ func init() {
 			{Harness: "vhC08Put", Params: P("CAP", 2, "AUTO", 0, "TOPICS", 1)}, {Harness: "vhC09Put", Params: P("AUTO", 0, "SIZES", 2, "TOPICS", 1, "MAXCOUNT", 2)}},
 			append(each(P("CAP", 2, "AUTO", 1, "TOPICS", 1, "FIRSTS", 12), "vhC08Put"), each(P("AUTO", 1, "SIZES", 2, "TOPICS", 1, "FIRSTS", 4), "vhC09Put")...)...),
 		Thorough: append([]hrun{{Harness: "vhC19Clone", Params: P("K", 3, "S", 2), Covers: []string{"C19/Clone/cloned"}}, {Harness: "vhC19Clone", Params: P("K", 4, "S", 1), Covers: []string{"C19/Clone/cloned"}}}, append(each(P("CAP", 3, "AUTO", 1, "TOPICS", 1), "vhC08Put"), append(each(P("AUTO", 1, "SIZES", 3, "TOPICS", 1), "vhC09Put"), each(P("CAP", 3, "AUTO", 0, "TOPICS", 1), "vhC08Put")...)...)...),
-		Labels: []string{"C19/", "caller-message-unchanged", "auto-id-set-on-a-copy", "copy-carries-same-content", "auto-id-next-decimal-on-copy", "auto-id-is-next-decimal"},
+		Labels: []string{"C19/", "rejected-does-not-consume-id", "caller-message-unchanged", "auto-id-set-on-a-copy", "copy-carries-same-content", "auto-id-next-decimal-on-copy", "auto-id-is-next-decimal"},
 		Bounds: map[string]string{
 			"quick":    "clone family of <= 3 messages starting from an arbitrary message (0-2 chunks, spare chunk capacity 0-2), every history of 3 operations from {AppendData, AppendComment (strings <= 1 symbolic byte), set ID/Type, set Retry, Clone} on any member; Put of a message into every FiniteReplayer (N=2) / ValidReplayer (len<=4) state in automatic-ID mode",
 			"thorough": "histories of 3 operations with strings <= 2 bytes and of 4 operations with strings <= 1 byte; FiniteReplayer N=3 both modes, ValidReplayer len <= 8",
@@ -173,8 +179,12 @@ func init() {
 		Quick: []hrun{
 			{Harness: "vhC16Session", Params: P("K", 3), Covers: []string{"C16/Session/body-written", "C16/Session/failure-surfaced"}},
 			{Harness: "vhC16Serve", Params: P("N", 3), Covers: []string{"C16/Serve/last-event-id-passed", "C16/Serve/rejected", "C16/Serve/subscribe-error"}},
+			// a message whose single data line is 1024 bytes long (a typical batching threshold)
+			{Harness: "vhC16Session", Params: P("K", 2, "LONG", 1024), Covers: []string{"C16/Session/body-written"}},
 		},
 		Thorough: []hrun{
+			{Harness: "vhC16Session", Params: P("K", 3, "LONG", 1024), Covers: []string{"C16/Session/body-written"}},
+			{Harness: "vhC16Session", Params: P("K", 2, "LONG", 4096), Covers: []string{"C16/Session/body-written"}},
 			{Harness: "vhC16Session", Params: P("K", 5), Covers: []string{"C16/Session/body-written", "C16/Session/failure-surfaced"}},
 			{Harness: "vhC16Serve", Params: P("N", 5), Covers: []string{"C16/Serve/last-event-id-passed", "C16/Serve/rejected", "C16/Serve/subscribe-error"}},
 		},
@@ -189,8 +199,10 @@ func init() {
 
 	checks["C13"] = &propCheck{
 		ID: "C13",
-		Quick:    []hrun{{Harness: "vhC13", Params: P("K", 5, "TYPEKINDS", 1), Covers: []string{"C13/dispatched", "C13/removed"}}, {Harness: "vhC13", Params: P("K", 4, "TYPEKINDS", 3), Covers: []string{"C13/dispatched", "C13/removed"}}, {Harness: "vhC01Conn", Params: P("N", 3, "SEG", 0), Covers: []string{"C01/Conn/some-event"}}},
-		Thorough: []hrun{{Harness: "vhC13", Params: P("K", 5, "TYPEKINDS", 3), Covers: []string{"C13/dispatched", "C13/removed"}}, {Harness: "vhC13", Params: P("K", 6, "TYPEKINDS", 1), Covers: []string{"C13/dispatched", "C13/removed"}}, {Harness: "vhC01Conn", Params: P("N", 4, "SEG", 0), Covers: []string{"C01/Conn/some-event"}}},
+		Quick:    []hrun{{Harness: "vhC13", Params: P("K", 5, "TYPEKINDS", 1), Covers: []string{"C13/dispatched", "C13/removed"}}, {Harness: "vhC13", Params: P("K", 4, "TYPEKINDS", 3), Covers: []string{"C13/dispatched", "C13/removed"}}, {Harness: "vhC01Conn", Params: P("N", 3, "SEG", 0), Covers: []string{"C01/Conn/some-event"}},
+			// one of the callbacks cancels the request context when it sees an event
+			{Harness: "vhC13", Params: P("K", 3, "TYPEKINDS", 1, "CTXCANCEL", 1), Covers: []string{"C13/dispatched"}}},
+		Thorough: []hrun{{Harness: "vhC13", Params: P("K", 4, "TYPEKINDS", 1, "CTXCANCEL", 1), Covers: []string{"C13/dispatched"}}, {Harness: "vhC13", Params: P("K", 5, "TYPEKINDS", 3), Covers: []string{"C13/dispatched", "C13/removed"}}, {Harness: "vhC13", Params: P("K", 6, "TYPEKINDS", 1), Covers: []string{"C13/dispatched", "C13/removed"}}, {Harness: "vhC01Conn", Params: P("N", 4, "SEG", 0), Covers: []string{"C01/Conn/some-event"}}},
 		Labels:   []string{"C13/", "lock-discipline/", "C01/Conn/events-equal-spec", "C01/Conn/event-count"},
 		Bounds: map[string]string{
 			"quick":    "every history of 5 operations from {SubscribeEvent(type: symbolic string <=1 byte), SubscribeMessages, SubscribeToAll, call any earlier remover (also repeatedly / stale after re-subscription), dispatch an event of symbolic type <=1 byte}; during each dispatch a second goroutine may call any remover at any callback boundary and completes iff it can take the lock; lock discipline of callbacks/callbacksAll/callbackID checked on every access; stream order -> dispatch order through Connection.read for all streams <=3 bytes",
@@ -246,6 +258,9 @@ func init() {
 			{Harness: "vhC01SmallBufRead", Params: P("L", 16), Covers: []string{"C01/SmallBufRead/some-event"}},
 			{Harness: "vhC01SmallBufConn", Params: P("L", 16), Covers: []string{"C01/SmallBufConn/some-event"}},
 			{Harness: "vhC01ConnTpl", Params: P("LINES", 3, "HOLE", 0, "NAMES", 2, "PREFIXES", 1), Covers: []string{"C01/ConnTpl/some-event"}},
+			// the end condition when the reader fails (a read error, also one that wraps io.EOF, is not a clean end)
+			{Harness: "vhC11Read", Params: P("N", 3, "SEG", 1), Covers: []string{"C11/Read/failing-reader"}},
+			{Harness: "vhC11ConnRead", Params: P("N", 3, "SEG", 1), Covers: []string{"C11/ConnRead/failing-reader"}},
 		},
 		Thorough: []hrun{
 			{Harness: "vhC01ConnTpl", Params: P("LINES", 3, "HOLE", 0, "NAMES", 3, "PREFIXES", 1), Covers: []string{"C01/ConnTpl/some-event"}},
@@ -257,7 +272,7 @@ func init() {
 			{Harness: "vhC01ReadTpl", Params: P("LINES", 2, "HOLE", 1), Covers: []string{"C01/ReadTpl/some-event"}},
 			{Harness: "vhC01ConnTpl", Params: P("LINES", 1, "HOLE", 3), Covers: []string{"C01/ConnTpl/some-event", "C01/ConnTpl/some-retry"}},
 		},
-		Labels: []string{"C01/", "panic:"},
+		Labels: []string{"C01/", "C11/Read/", "C11/ConnRead/", "panic:"},
 		Bounds: map[string]string{
 			"quick":    "every byte string <=4 bytes x every segmentation into read chunks x early stop after 0/1/2 events (Read) and x initial last-event-ID <=1 byte (Connection); every byte string <=7 (Read) / <=6 (Connection) bytes delivered in one chunk; templates: prefix in {none, BOM, LF BOM, CRLF BOM} + one line (name in {data,event,id,retry,'',dat,datas}, optional ':' / ': ', hole of <=2 symbolic bytes) + terminator in {LF,CR,CRLF,none} + tail in {none,LF,CRLF}; all two-line templates without holes; all three-line templates over {data,event} without holes; a 16-byte scanner buffer with streams id:<byte> event:<byte> + 1-2 data events in chunks of {1, half, all that fits} (buffer compaction and refill between events)",
 			"thorough": "all strings <=6 bytes x all segmentations (Read) / <=5 (Connection); <=9 / <=8 bytes in one chunk; EOF delivered together with the last bytes; two-line templates with 1-byte holes, one-line templates with 3-byte holes",
@@ -276,6 +291,10 @@ func init() {
 			{Harness: "vhC11Connect", Params: P("A", 4, "CANCEL", 0, "BODYKINDS", 1, "TPLMASK", 1), Covers: []string{"C11/Connect/retries-exhausted"}},
 			{Harness: "vhC11Connect", Params: P("A", 3, "CANCEL", 0, "BODYKINDS", 5, "TPLMASK", 2), Covers: []string{"C11/Connect/body-reset-failed"}},
 			{Harness: "vhC11Connect", Params: P("A", 3, "CANCEL", 0, "BODYKINDS", 5, "TPLMASK", 9), Covers: []string{"C11/Connect/retries-exhausted", "C11/Connect/body-reset-failed"}},
+			// Connect called again on the same Connection: every call has the whole retry budget
+			{Harness: "vhC10Reconnect", Params: P("A", 4, "CANCEL", 0, "BODYKINDS", 1, "TPLMASK", 1, "RMAX", 1), Covers: []string{"C11/Connect/retries-exhausted"}},
+			// the context ends during the wait between two attempts, long before the wait is over
+			{Harness: "vhC11CancelInWait", Params: P("A", 2, "CANCEL", 0, "BODYKINDS", 1, "TPLMASK", 1, "HOLD", 1), Covers: []string{"C11/Connect/cancelled"}, NoNative: true},
 		},
 		Thorough: []hrun{
 			{Harness: "vhC11Connect", Params: P("A", 3, "CANCEL", 1, "BODYKINDS", 1, "TPLMASK", 7), Covers: []string{"C11/Connect/cancelled", "C11/Connect/retries-exhausted", "C11/Connect/validator-rejected"}, NoNative: true},
@@ -284,7 +303,7 @@ func init() {
 			{Harness: "vhC11ConnRead", Params: P("N", 5, "SEG", 1), Covers: []string{"C11/ConnRead/failing-reader"}},
 			{Harness: "vhC11ConnRead", Params: P("N", 8, "SEG", 0), Covers: []string{"C11/ConnRead/failing-reader"}},
 		},
-		Labels: []string{"C11/", "C10/Connect/consumed-body", "C10/Connect/no-request-after-GetBody-failed", "C10/Connect/body-re-obtained", "C10/Connect/ErrNoGetBody", "C10/Connect/GetBody-error", "panic:"},
+		Labels: []string{"C11/", "hang:", "C10/Connect/consumed-body", "C10/Connect/no-request-after-GetBody-failed", "C10/Connect/body-re-obtained", "C10/Connect/ErrNoGetBody", "C10/Connect/GetBody-error", "panic:"},
 		Bounds: map[string]string{
 			"quick":    "every stream <=4 bytes x every segmentation x {clean EOF, read error after the last byte, read error delivered together with the last bytes}; <=6 bytes in one chunk; the Connect loop against a scripted transport: scripts of <=2 attempts (each: transport failure / rejected response / 200 with one of 3 template streams ending cleanly or with a read error), MaxRetries in {-1,1,2}, cancellation before Do / at every byte offset of the body / while waiting for the retry timer; scripts of <=3 attempts without cancellation over 5 request-body kinds; scripts of <=3 attempts whose transport / read errors may be context.DeadlineExceeded / context.Canceled while the request context is live",
 			"thorough": "<=5 bytes x all segmentations; <=8 bytes in one chunk",
@@ -302,6 +321,8 @@ func init() {
 			{Harness: "vhC10Connect", Params: P("A", 2, "CANCEL", 0, "BODYKINDS", 1, "TPLMASK", 64), Covers: []string{"C10/Connect/header-sent"}},
 			// Connect called again on the same Connection: its first attempt is a reconnection too
 			{Harness: "vhC10Reconnect", Params: P("A", 2, "CANCEL", 0, "BODYKINDS", 5, "TPLMASK", 3), Covers: []string{"C10/Connect/header-sent", "C10/Connect/getbody-failed"}},
+			// an event dispatched by the clean end of the body (terminated last line, no blank line): its id counts
+			{Harness: "vhC10Connect", Params: P("A", 2, "CANCEL", 0, "BODYKINDS", 1, "TPLMASK", 256), Covers: []string{"C10/Connect/header-sent"}},
 			// the stored ID must survive the scanner compacting its buffer (16-byte buffer on short streams)
 			{Harness: "vhC01SmallBufConn", Params: P("L", 16)},
 		},
@@ -328,6 +349,9 @@ func init() {
 			{Harness: "vhC12Connect", Params: P("A", 3, "CANCEL", 0, "BODYKINDS", 1, "TPLMASK", 9), Covers: []string{"C11/Connect/retries-exhausted"}},
 			// a retry field in a block the connection is cut in
 			{Harness: "vhC12Connect", Params: P("A", 2, "CANCEL", 0, "BODYKINDS", 1, "TPLMASK", 128, "RDIGITS", 1), Covers: []string{"C12/Connect/server-retry-used"}},
+			// jitter 0.5, multiplier 2: every history of 4 retry/reset events with the random draws at
+			// their extremes and midpoint (the wait is monotone in the draw)
+			{Harness: "vhC12Logic", Params: P("K", 4, "SIMPLE", 1, "RANDEXTREMES", 1), Covers: []string{"C12/Logic/retry-granted"}, NoNative: true},
 		},
 		Thorough: []hrun{
 			{Harness: "vhC12Merge", Covers: []string{"C12/Merge/jitter-minus-one"}},
@@ -368,6 +392,8 @@ func init() {
 			{Harness: "vhC09Replay", Params: P("AUTO", 1, "SIZES", 2, "TOPICS", 1, "MAXCOUNT", 2)},
 			// a Send error that wraps context.Canceled while the subscription's own context is live
 			joe("vhC06Joe", "NSUB", 1, "NMSG", 2, "NSHUT", 0, "CANCEL", 0, "TOPICS", 0, "ERRKIND", 1),
+			// two overlapping Shutdown calls
+			joe("vhC06Joe", "NSUB", 1, "NMSG", 0, "NSHUT", 2, "CANCEL", 0, "TOPICS", 0),
 		},
 		Thorough: []hrun{
 			joe("vhC06Joe", "NSUB", 2, "NMSG", 1, "NSHUT", 0, "CANCEL", 1, "TOPICS", 0),
@@ -400,6 +426,11 @@ func init() {
 			// a pipelined consumer: its Send returns once the publisher got its pending Publish back,
 			// which Shutdown promises
 			joe("vhC07Joe", "NSUB", 1, "NMSG", 2, "NSHUT", 1, "CANCEL", 0, "TOPICS", 0, "GATE", 1),
+			// Shutdown returning nil means every subscriber has been released
+			joe("vhC07Joe", "NSUB", 2, "NMSG", 0, "NSHUT", 1, "CANCEL", 0, "TOPICS", 0),
+			// the context given to Shutdown ends while Joe is busy in a Send that makes progress
+			// only once Shutdown has returned: Shutdown returns its context's error
+			joe("vhC07Joe", "NSUB", 1, "NMSG", 1, "NSHUT", 1, "CANCEL", 0, "TOPICS", 0, "GATE", 2, "SHUTCTX", 2),
 		},
 		Thorough: []hrun{
 			joe("vhC07Joe", "NSUB", 2, "NMSG", 1, "NSHUT", 2, "CANCEL", 0, "TOPICS", 0),
@@ -411,7 +442,7 @@ func init() {
 			"quick":    "every interleaving of visible operations of: {1 subscriber, 1 message, cancel, 1 Shutdown}, {1 subscriber, 1 message, 2 concurrent Shutdowns}, {2 subscribers, 1 message, 1 Shutdown, failing Send/Flush}, {2 cancellable subscribers, no Shutdown}, {1 subscriber, 3 messages, 1 Shutdown, failing Send/Flush}; every caller may be the one that runs Joe's lazy initialisation",
 			"thorough": "{2 subscribers, 1 message, 2 Shutdowns}, {1 subscriber, 2 messages, cancel, Shutdown, failures}, {2 cancellable subscribers, 1 message}",
 		},
-		Outside: []string{"Shutdown contexts that expire while Shutdown waits (a context that is already done when Shutdown is called is covered)", "subscribers whose Send blocks (excluded by the property)", "liveness under an unfair scheduler with unbounded publishers"},
+		Outside: []string{"subscribers whose Send never returns (excluded by the property; a Send that returns once a pending Publish or the Shutdown call has returned is covered by the GATE configurations)", "liveness under an unfair scheduler with unbounded publishers"},
 		Oracle:  "at quiescence (no transition enabled): with a Shutdown every goroutine has finished - every Subscribe and Publish returned (nil, own error, replayer error or ErrProviderClosed), exactly one Shutdown returned nil and the others ErrProviderClosed, Joe's goroutine exited (closed channel closed); without Shutdown at most Joe's own idle goroutine remains once every subscriber was cancelled; no crash",
 	}
 	checks["C03"] = &propCheck{
@@ -427,6 +458,8 @@ func init() {
 			// one *Message object published twice (a reused keep-alive message): two publications
 			joe("vhC03Joe", "NSUB", 2, "NMSG", 2, "NSHUT", 0, "CANCEL", 0, "TOPICS", 0, "SAMEMSG", 1),
 			joe("vhC03Joe", "NSUB", 1, "NMSG", 3, "NSHUT", 0, "CANCEL", 0, "TOPICS", 1, "SAMEMSG", 1),
+			// a message the replayer's Put rejects (or panics on) is accepted by Joe all the same
+			joe("vhC17Joe", "NSUB", 1, "NMSG", 2, "NSHUT", 0, "CANCEL", 0, "TOPICS", 0, "REPLAYER", 2),
 		},
 		Thorough: []hrun{
 			joe("vhC03Joe", "NSUB", 2, "NMSG", 2, "NSHUT", 0, "CANCEL", 0, "TOPICS", 0, "FAULTS", 1),
@@ -434,7 +467,7 @@ func init() {
 			joe("vhC03Joe", "NSUB", 2, "NMSG", 1, "NSHUT", 0, "CANCEL", 1, "TOPICS", 0),
 			joe("vhC03Joe", "NSUB", 3, "NMSG", 1, "NSHUT", 0, "CANCEL", 0, "TOPICS", 1),
 		},
-		Labels: []string{"C03/", "panic:"},
+		Labels: []string{"C03/", "C17/", "C06/", "panic:"},
 		Bounds: map[string]string{
 			"quick":    "every interleaving of visible operations of: {2 subscribers, 1 publisher x 2 messages, symbolic one-byte topics on both sides}, {1 cancellable subscriber, 2 messages, failing Send/Flush}, {2 subscribers, 1 message, Shutdown}, {2 subscribers with symbolic topics, 1 message, failing Send/Flush}; a recording contract replayer is the linearisation witness (order of Put and of registration)",
 			"thorough": "{2 subscribers, 2 messages, up to 2 topics each}, {2 cancellable subscribers, 1 message}, {3 subscribers, 1 message}",
@@ -444,7 +477,11 @@ func init() {
 	}
 	for _, runs := range [][]hrun{checks["C03"].Quick, checks["C03"].Thorough} {
 		for i := range runs {
-			runs[i].Covers = []string{"C03/delivery-obligation"}
+			if runs[i].Harness == "vhC03Joe" {
+				runs[i].Covers = []string{"C03/delivery-obligation"}
+			} else {
+				runs[i].Covers = []string{"C17/delivery-obligation"}
+			}
 		}
 	}
 	checks["C17"] = &propCheck{
@@ -456,13 +493,16 @@ func init() {
 			joe("vhC17Joe", "NSUB", 2, "NMSG", 1, "NSHUT", 0, "CANCEL", 1, "CANCELN", 1, "TOPICS", 0, "REPLAYER", 1),
 			// Send/Flush errors that wrap context.Canceled (the subscription's own context is live)
 			joe("vhC17Joe", "NSUB", 2, "NMSG", 2, "NSHUT", 0, "CANCEL", 0, "TOPICS", 0, "REPLAYER", 1, "ERRKIND", 1),
+			// "gets the error from Subscribe": a Send failing during the replay of the real replayers is what Replay returns
+			{Harness: "vhC08Replay", Params: P("CAP", 2, "AUTO", 0, "TOPICS", 1)},
+			{Harness: "vhC09Replay", Params: P("AUTO", 0, "SIZES", 2, "TOPICS", 1, "MAXCOUNT", 2)},
 		},
 		Thorough: []hrun{
 			joe("vhC17Joe", "NSUB", 3, "NMSG", 1, "NSHUT", 0, "CANCEL", 0, "TOPICS", 1, "REPLAYER", 1),
 			joe("vhC17Joe", "NSUB", 2, "NMSG", 2, "NSHUT", 0, "CANCEL", 0, "TOPICS", 0, "REPLAYER", 1),
 			joe("vhC17Joe", "NSUB", 2, "NMSG", 1, "NSHUT", 0, "CANCEL", 0, "TOPICS", 0, "REPLAYER", 2),
 		},
-		Labels: []string{"C17/", "C06/", "panic:"},
+		Labels: []string{"C17/", "C06/", "C08/Replay/send-error", "C08/Replay/sends-before-failure", "C08/Replay/nothing-after-failure", "C08/Replay/flush-error", "C09/Replay/send-error", "C09/Replay/sends-before-failure", "C09/Replay/nothing-after-failure", "panic:"},
 		Bounds: map[string]string{
 			"quick":    "every interleaving of: {2 subscribers whose every Send/Flush may fail, 1 message}, {1 subscriber, 2 messages, a replayer whose every Put/Replay returns normally, returns an error or panics}, {2 subscribers and 2 messages with symbolic one-byte topics (subscribers on different topics), failing Send/Flush}",
 			"thorough": "{2 subscribers, 2 messages, failing clients}, {2 subscribers, 1 message, failing/panicking replayer}",
@@ -475,11 +515,14 @@ func init() {
 		Quick: []hrun{
 			joe("vhC04Joe", "NSUB", 1, "NMSG", 2, "TOPICS", 0),
 			joe("vhC04Joe", "NSUB", 1, "NMSG", 2, "TOPICS", 1),
+			// another subscriber's client fails during the fan-out: the resumed one still gets everything
+			joe("vhC04Joe", "NSUB", 2, "NMSG", 1, "TOPICS", 0, "FAULTS", 1),
 			// the replayer contract C04 relies on, for the real replayers (same harnesses as C08/C09)
 			{Harness: "vhC08Put", Params: P("CAP", 2, "AUTO", 1, "TOPICS", 1)},
 			{Harness: "vhC08Replay", Params: P("CAP", 2, "AUTO", 0, "TOPICS", 1)},
 			{Harness: "vhC08Replay", Params: P("CAP", 3, "AUTO", 1, "TOPICS", 1)},
 			{Harness: "vhC09Replay", Params: P("AUTO", 0, "SIZES", 2, "TOPICS", 1, "MAXCOUNT", 4)},
+			{Harness: "vhC09Replay", Params: P("AUTO", 1, "SIZES", 2, "TOPICS", 1, "MAXCOUNT", 3)},
 			{Harness: "vhC09Put", Params: P("AUTO", 0, "SIZES", 2, "TOPICS", 1)},
 			{Harness: "vhC09GC", Params: P("AUTO", 1, "SIZES", 3, "TOPICS", 1)},
 		},
@@ -510,6 +553,8 @@ func init() {
 			{Harness: "vhC05", Params: P("MSGS", 2, "ATTEMPTS", 2, "AUTO", 1, "N", 0, "SMALLBUF", 24), Covers: []string{"C05/all-received", "C05/cut-mid-stream"}},
 			// each response body handed over in two reads split at every offset (besides the cut)
 			{Harness: "vhC05", Params: P("MSGS", 2, "ATTEMPTS", 2, "AUTO", 1, "N", 0, "SPLIT", 1, "NOTYPE", 1), Covers: []string{"C05/all-received", "C05/cut-mid-stream"}},
+			// a Server whose OnSession picks the topics itself
+			{Harness: "vhC05", Params: P("MSGS", 2, "ATTEMPTS", 2, "AUTO", 1, "N", 0, "NOTYPE", 1, "ONSESSION", 1), Covers: []string{"C05/all-received", "C05/cut-mid-stream"}},
 			// "a replayer large enough": the ValidReplayer's ring must keep Put order through grow/GC (one inductive step)
 			{Harness: "vhC09Put", Params: P("AUTO", 0, "SIZES", 2, "TOPICS", 1)},
 			// "the server process survives every such cut": Joe under cancellation while publishing
